@@ -97,6 +97,16 @@ func samePrefix(a, b *net.IPNet) bool {
 	return a.IP.Equal(b.IP) && bytes.Equal(a.Mask, b.Mask)
 }
 
+// hintNet returns the prefix a hint asks for. A hint without a prefix (an
+// IAPrefix of length 0 is parsed as a nil prefix, and we synthesize an empty one
+// for IA_PDs without any IAPrefix) is the unspecified prefix ::/0, ie no hint
+func hintNet(h *dhcpv6.OptIAPrefix) net.IPNet {
+	if h.Prefix == nil || len(h.Prefix.IP) == 0 {
+		return net.IPNet{IP: net.IPv6zero}
+	}
+	return *h.Prefix
+}
+
 // recordKey computes the key for the Records array from the client ID
 func recordKey(d dhcpv6.DUID) string {
 	return string(d.ToBytes())
@@ -170,8 +180,8 @@ func (h *Handler) Handle(req, resp dhcpv6.DHCPv6) (dhcpv6.DHCPv6, bool) {
 		// Then handle the empty hints, by giving out any remaining lease we
 		// have already assigned to this client
 		for hintIdx, h := range hints {
-			if satisfied.Test(uint(hintIdx)) ||
-				(h.Prefix != nil && !h.Prefix.IP.Equal(net.IPv6zero)) {
+			hint := hintNet(h)
+			if satisfied.Test(uint(hintIdx)) || !hint.IP.Equal(net.IPv6zero) {
 				continue
 			}
 			for leaseIdx, l := range knownLeases {
@@ -181,7 +191,7 @@ func (h *Handler) Handle(req, resp dhcpv6.DHCPv6) (dhcpv6.DHCPv6, bool) {
 
 				// If a length was requested, only give out prefixes of that length
 				// This is a bad heuristic depending on the allocator behavior, to be improved
-				if hintPrefixLen, _ := h.Prefix.Mask.Size(); hintPrefixLen != 0 {
+				if hintPrefixLen, _ := hint.Mask.Size(); hintPrefixLen != 0 {
 					leasePrefixLen, _ := l.Prefix.Mask.Size()
 					if hintPrefixLen != leasePrefixLen {
 						continue
